@@ -9,7 +9,9 @@ answer taken from a Chooser. A shared Recorder (survives the engine's deepcopies
 from __future__ import annotations
 
 import copy
+import itertools
 import math
+import weakref
 
 import numpy as np
 
@@ -23,10 +25,23 @@ REGIMES = [
 ]
 
 
+_RECORDERS = weakref.WeakValueDictionary()  # uid -> Recorder (pickled copies of the scripted process find theirs here)
+_UID = itertools.count()
+
+
+def _recorder_by_uid(uid):
+    return _RECORDERS[uid]
+
+
 class Recorder:
-    """Reference model + chooser holder. Deep copies of the scripted process share it."""
+    """Reference model + chooser holder. Deep copies AND pickled (dill) copies of the scripted process share it: what a
+    simulated pool worker simulates is logged in the one reference model, as the engine's parent process must see it."""
 
     def __init__(self, chooser, regimes=None):
+        self._uid = next(_UID)
+        _RECORDERS[self._uid] = self
+        self.pending = {}  # level -> a new batch starts at the next simulate call of that level
+        self.regime = {}  # level -> regime of the batch in progress
         self.chooser = chooser
         self.regimes = regimes or REGIMES
         self.samples = {}  # level -> list of (fine_underlying, coarse_underlying)
@@ -38,6 +53,9 @@ class Recorder:
 
     def __deepcopy__(self, memo):
         return self
+
+    def __reduce__(self):
+        return _recorder_by_uid, (self._uid,)
 
 
 def w_k(k: int) -> float:
@@ -101,8 +119,6 @@ class ScriptedCoupling:
         self.fine_process = ScriptedFine(ProcessRepresentation.IDENDITY, df)
         self.level = 0
         self.maturity = maturity
-        self._regime = None
-        self._pending_batch = False
         self._times = np.array([0.0, maturity])
 
     # --- engine-facing interface ------------------------------------------------------------------------------------
@@ -110,7 +126,9 @@ class ScriptedCoupling:
         pass
 
     def pre_computation(self, mc_paths, product):
-        self._pending_batch = True  # regime chosen lazily at the first simulate call of the batch
+        # regime chosen lazily at the first simulate call of the batch; the batch state lives in the shared recorder (keyed by
+        # level) so that the per-chunk copies a worker pool makes of this object all belong to the one batch
+        self.rec.pending[self.level] = True
 
     def reset_one_simulation_cost(self):
         pass
@@ -121,7 +139,7 @@ class ScriptedCoupling:
     def next_level(self, mc_paths, path_managers, product, max_step_epsilon=None):
         self.level += 1
         self.rec.next_level_calls.append(self.level)
-        self._pending_batch = True
+        self.rec.pending[self.level] = True
         if path_managers is not None:
             pm = copy.deepcopy(path_managers[-1])
             pm.update(self.fine_process.process_representation)
@@ -136,14 +154,14 @@ class ScriptedCoupling:
     def _draw(self):
         rec = self.rec
         lvl = self.level
-        if self._pending_batch or self._regime is None:
+        if rec.pending.get(lvl, True) or lvl not in rec.regime:
             b = rec.batches.get(lvl, 0)
             rec.batches[lvl] = b + 1
             c = rec.chooser.choose(len(rec.regimes), f"regime:l{lvl}:b{b}")
-            self._regime = rec.regimes[c]
-            rec.regime_log.append((lvl, b, self._regime[0]))
-            self._pending_batch = False
-        name, mf, sf, mdec, sdec = self._regime
+            rec.regime[lvl] = rec.regimes[c]
+            rec.regime_log.append((lvl, b, rec.regime[lvl][0]))
+            rec.pending[lvl] = False
+        name, mf, sf, mdec, sdec = rec.regime[lvl]
         lst = rec.samples.setdefault(lvl, [])
         k = len(lst)
         m = mf * (2.0 ** -lvl if mdec else 1.0)
@@ -206,3 +224,86 @@ def make_control_variates(kind, notional=1.0, maturity=1.0, dim=1):
         # one price per payoff component when the payoff is a vector (product.py reads prices[k] per component)
         return ControlVariates(products=[cvp], prices=[0.3] if dim == 1 else [np.array([0.3] * dim)])
     raise ValueError(kind)
+
+
+# ----------------------------------------------------------------------------------------------------------------------
+# simulated worker pool (the multiprocessing branch of Engine.compute_level_l without real processes)
+# ----------------------------------------------------------------------------------------------------------------------
+
+class _Result:
+    def __init__(self, value):
+        self._value = value
+
+    def get(self, timeout=None):
+        return self._value
+
+
+class SimulatedPool:
+    """Drop-in for pathos.multiprocessing.Pool as the engines use it (same semantics as mc/c08_util.SimPool, validated
+    there against the real pool, without the random-stream bookkeeping): `processes` workers (None = a 3-cpu machine), the
+    initializer runs once per worker (the generator states of this process are put back afterwards); map_async cuts the
+    items into chunks of ceil(len / (4 processes)) consecutive items; EVERY CHUNK works on its own dill round-trip copy of
+    the task (closures are pickled by value), so nothing a worker does to the engine's objects reaches the parent - only
+    the returned values do; results come back in index order and the callback runs once, in the parent."""
+
+    log = []  # (processes, items, chunks) of every map_async since the last install
+
+    def __init__(self, processes=None, initializer=None, initargs=()):
+        import random as pyrandom
+
+        self.n = processes if processes else 3
+        st, pst = np.random.get_state(), pyrandom.getstate()
+        try:
+            for _ in range(self.n):
+                if initializer is not None:
+                    initializer(*initargs)
+        finally:
+            np.random.set_state(st)
+            pyrandom.setstate(pst)
+
+    def __enter__(self):
+        return self
+
+    def __exit__(self, *a):
+        return False
+
+    def map_async(self, func, iterable, chunksize=None, callback=None, error_callback=None):
+        import dill
+
+        items = list(iterable)
+        if chunksize is None:
+            chunksize, extra = divmod(len(items), 4 * self.n)
+            if extra:
+                chunksize += 1
+        chunks = [items[i: i + chunksize] for i in range(0, len(items), chunksize)] if chunksize else []
+        blob = dill.dumps(func)
+        results = []
+        for chunk in chunks:
+            fcopy = dill.loads(blob)
+            results.extend(fcopy(x) for x in chunk)
+        SimulatedPool.log.append((self.n, len(items), len(chunks)))
+        if callback is not None:
+            callback(results)
+        return _Result(results)
+
+
+class _FakeMP:
+    Pool = SimulatedPool
+
+
+class pool_installed:
+    """Context manager: the multilevel engine module sees SimulatedPool instead of pathos.multiprocessing."""
+
+    def __enter__(self):
+        import rpylib.montecarlo.multilevel.engine as ME
+
+        self._saved = ME.mp
+        ME.mp = _FakeMP
+        del SimulatedPool.log[:]
+        return SimulatedPool
+
+    def __exit__(self, *a):
+        import rpylib.montecarlo.multilevel.engine as ME
+
+        ME.mp = self._saved
+        return False
